@@ -29,6 +29,10 @@ def corpus():
         "c12 k_acctpw cbe=fs sbe=fs devs=1 hist=c0:a|c0:b|w0:0|W0|o0|c0:c|z0:0|W0|o0",
         "c12 k_acctpw_db cbe=db sbe=fs devs=1 hist=c0:a|f0:1|c0:b@1|w0:1|W0|o0|u0:b|o0",
         "c12 k_cipher cbe=fs sbe=fs devs=1 hist=c0:a|c0:b|p0:0|Z0|o0|u0:a|Z0|o0|w0:0|o0",
+        # compactions with nothing to prune (twice in a row, right after a key change, on a fresh folder), then a key change:
+        # nothing the old key opens may be left anywhere in the folder's storage, sibling files included
+        "c12 k_noop_compact cbe=fs sbe=fs devs=1 hist=c0:a|c0:b|z0:0|z0:0|w0:0|o0|z0:0|w0:0",
+        "c12 k_noop_compact_new cbe=fs sbe=fs devs=1 hist=f0:1|z0:1|c0:a@1|w0:1|z0:1|z0:1|w0:1|o0",
     ]
 
 
@@ -154,6 +158,9 @@ def oracle(case, obs):
                     fails.append({"oracle": "old_key_rejected", "detail": "step %d: the old password still unlocks the folder: %s" % (st, k)})
                 if k.get("new_unlock") != "ok":
                     fails.append({"oracle": "new_key_unlocks", "detail": "step %d: the new password does not unlock the folder: %s" % (st, k)})
+                if int(k.get("sibling_old_opens", "0")) != 0:
+                    fails.append({"oracle": "no_old_ciphertext", "where": "sibling_file",
+                                  "detail": "step %d: %s blob(s) in %s other file(s) of the folder's storage still open with the old key" % (st, k.get("sibling_old_opens"), k.get("siblings"))})
                 if int(k.get("old_opens", "0")) != 0:
                     fails.append({"oracle": "no_old_ciphertext", "detail": "step %d: %s of %s blobs in the folder's vault/log still open with the old key" % (st, k.get("old_opens"), k.get("blobs"))})
         prev = cur
